@@ -48,7 +48,14 @@ def _meta(rec) -> List[Any]:
     return [json.loads(m.json()) for m in rec.ih5_meta]
 
 
-def _apply_all(rec, ops) -> List[str]:
+def _cls(name):
+    from metador_core.ih5.container import IH5Record, IH5MFRecord
+    return IH5MFRecord if name == "IH5MFRecord" else IH5Record
+
+
+def _apply_all(rec, ops, opened=None, path=None):
+    """Apply the operations; ["sess", cls] ends the session (commit, close) and continues the
+    record with the given class (mode r+ starts the next patch).  Returns (handle, flags)."""
     flags = []
     for op in ops:
         try:
@@ -62,14 +69,21 @@ def _apply_all(rec, ops) -> List[str]:
                 except ValueError:
                     pass
                 rec.create_patch()
+            elif op[0] == "sess":      # new session, possibly with the other record class
+                rec.commit_patch()
+                rec.close()
+                rec = _cls(op[1])(path, "r+")
+                opened.append(rec)
             else:
                 ih5lib.apply_op(rec, op)
             flags.append("T")
         except vlib.CaseTimeout:
             raise
         except Exception:  # noqa: BLE001
+            if op[0] == "sess":
+                raise              # a session that cannot be opened is not a refused operation
             flags.append("F")
-    return flags
+    return rec, flags
 
 
 def _try_merge(rec, target: Path, watch: List[Path]) -> Dict[str, Any]:
@@ -125,27 +139,58 @@ def _view(rec):
         return ["READ-ERROR", f"{type(e).__name__}: {e}"[:200]]
 
 
+def case_classes(case):
+    """(class of the first session, class of the last session, merging class, follow-up class)."""
+    first = case["cls"]
+    last = ([op[1] for op in case["ops"] if op[0] == "sess"] or [first])[-1]
+    return first, last, case.get("mcls") or last, case.get("fcls") or case.get("mcls") or last
+
+
+def _reopen_all(paths_or_prefix, classes, opened, want_nfiles=None):
+    """Open read-only with each class: {class: view | ["OPEN-ERROR", ...]}."""
+    res = {}
+    for cn in classes:
+        try:
+            h = _cls(cn)(paths_or_prefix, "r")
+            opened.append(h)
+            res[cn] = _view(h)
+            if want_nfiles is not None and len(h.ih5_files) != want_nfiles:
+                res[cn] = ["NFILES", len(h.ih5_files)]
+            h.close()
+        except vlib.CaseTimeout:
+            raise
+        except Exception as e:  # noqa: BLE001
+            res[cn] = ["OPEN-ERROR", f"{type(e).__name__}: {e}"[:200]]
+    return res
+
+
+BOTH = ["IH5Record", "IH5MFRecord"]
+
+
 def observe(case) -> Dict[str, Any]:
     """Run one case on the real code and record every observation the property names."""
-    from metador_core.ih5.container import IH5Record, IH5MFRecord
-    cls = IH5MFRecord if case["cls"] == "IH5MFRecord" else IH5Record
+    first, last, mcls_n, fcls_n = case_classes(case)
     out: Dict[str, Any] = {"st": "ok"}
-    opened = []
+    opened: List[Any] = []
     with vlib.workdir("c05") as d:
         sdir, mdir, tdir = d / "s", d / "m", d / "t"
         for x in (sdir, mdir, tdir):
             x.mkdir()
         try:
             with ih5lib.hard_time_limit(CASE_TIMEOUT):
-                rec = cls(sdir / "rec", "w")
+                rec = _cls(first)(sdir / "rec", "w")
                 opened.append(rec)
-                out["hflags"] = _apply_all(rec, case["ops"])
+                rec, out["hflags"] = _apply_all(rec, case["ops"], opened, sdir / "rec")
                 # -- refusal while there are uncommitted changes
                 out["ref_w"] = _try_merge(rec, mdir / "refused", [sdir, mdir])
                 rec.commit_patch()
-                if case.get("ro"):                     # continue through a read-only handle
+                if case.get("ro") or mcls_n != last:   # the merging handle: other class and / or read-only
                     rec.close()
-                    rec = cls(sdir / "rec", "r")
+                    if case.get("ro"):
+                        rec = _cls(mcls_n)(sdir / "rec", "r")
+                    else:
+                        rec = _cls(mcls_n)(sdir / "rec", "r+")
+                        rec.discard_patch()            # r+ started a patch: drop it again
                     opened.append(rec)
                 view_c, meta_c = _view(rec), _meta(rec)
                 # -- failed / refused / undone operations before the merge
@@ -169,64 +214,45 @@ def observe(case) -> Dict[str, Any]:
                 out.update(src_view=view0, src_view_after=view1, meta_before=meta0, meta_after=meta1,
                            sha_same=(sha0 == sha1), n_src_files=len(sha0),
                            merged_name=merged.name, m_files=sorted(p.name for p in mdir.iterdir()))
-                out["merged_abs"] = reclib.abstract_file(merged)
+                out["merged_abs"] = ma = reclib.abstract_file(merged)
                 out["merged_raw"] = ih5lib.dump_raw(merged)
-                try:
-                    with cls(mdir / "merged", "r") as m:      # re-verifies the fresh hash (and manifest)
-                        out["merged_view"] = _view(m)
-                        out["merged_nfiles"] = len(m.ih5_files)
-                except vlib.CaseTimeout:
-                    raise
-                except Exception as e:  # noqa: BLE001
-                    out["merged_open_err"] = f"{type(e).__name__}: {e}"[:200]
-                # -- a follow-up patch on the source
-                if case.get("ro"):
+                # the merged record must open with the merging class and with the plain class; with the
+                # manifest-aware class whenever that class wrote it or the block names no manifest (a plain
+                # merge of a manifest-carrying record copies the link but, by design, no sidecar file)
+                mf_can = mcls_n == "IH5MFRecord" or (ma["st"] == "ok" and ma["ext"] is None)
+                out["merged_classes"] = ["IH5Record"] + (["IH5MFRecord"] if mf_can else [])
+                out["merged_views"] = _reopen_all(mdir / "merged", out["merged_classes"], opened, want_nfiles=1)
+                # -- a follow-up patch on the source, written with the follow-up class
+                if case.get("ro") or fcls_n != mcls_n:
                     rec.close()
-                    rec = cls(sdir / "rec", "r+")      # r+ on a committed record starts a new patch
+                    rec = _cls(fcls_n)(sdir / "rec", "r+")      # r+ on a committed record starts a new patch
                     opened.append(rec)
                 else:
                     rec.create_patch()
-                out["fflags"] = _apply_all(rec, case["follow"])
+                rec, out["fflags"] = _apply_all(rec, case["follow"])
                 rec.commit_patch()
                 pf = Path(rec.ih5_files[-1])
                 out["follow_live_view"] = _view(rec)
                 out["patch_raw"] = ih5lib.dump_raw(pf)
                 out["patch_abs"] = reclib.abstract_file(pf)
                 rec.close()
-                try:
-                    m2 = cls([merged, pf], "r")
-                    opened.append(m2)
-                    out["follow_merged_view"] = _view(m2)
-                    m2.close()
-                except vlib.CaseTimeout:
-                    raise
-                except Exception as e:  # noqa: BLE001
-                    out["follow_merged_err"] = f"{type(e).__name__}: {e}"[:200]
-                s2 = cls(sdir / "rec", "r")
-                opened.append(s2)
-                out["follow_src_view"] = _view(s2)
-                s2.close()
+                out["follow_merged_views"] = _reopen_all([merged, pf], BOTH, opened)
+                out["follow_src_views"] = _reopen_all(sdir / "rec", BOTH, opened)
                 # -- the same follow-up performed on the merged record itself
-                mr = cls(mdir / "merged", "r+")          # r+ on a committed record starts a new patch
+                own_n = fcls_n if fcls_n in out["merged_classes"] else "IH5Record"
+                mr = _cls(own_n)(mdir / "merged", "r+")          # r+ on a committed record starts a new patch
                 opened.append(mr)
-                out["mflags"] = _apply_all(mr, case["follow"])
+                mr, out["mflags"] = _apply_all(mr, case["follow"])
                 mr.commit_patch()
                 out["follow_own_view"] = _view(mr)
                 own_pf = Path(mr.ih5_files[-1])
                 out["own_patch_raw"] = ih5lib.dump_raw(own_pf)
                 mr.close()
                 # -- and the patch written on the merged record applied to the original containers
-                try:
-                    s3 = cls(files + [own_pf], "r")
-                    opened.append(s3)
-                    out["own_on_src_view"] = _view(s3)
-                    s3.close()
-                except vlib.CaseTimeout:
-                    raise
-                except Exception as e:  # noqa: BLE001
-                    out["own_on_src_err"] = f"{type(e).__name__}: {e}"[:200]
+                out["own_on_src_views"] = _reopen_all(files + [own_pf], BOTH, opened)
                 # -- stub-containing sets (manifest-aware class)
-                if case.get("stub") and cls is IH5MFRecord:
+                if case.get("stub") and fcls_n == "IH5MFRecord":
+                    from metador_core.ih5.container import IH5MFRecord
                     mf = Path(str(pf) + reclib.MF_SUFFIX)
                     stub = IH5MFRecord.create_stub(tdir / "stub", mf)
                     opened.append(stub)
@@ -283,15 +309,16 @@ def oracle(o: Dict[str, Any], case) -> List[Dict[str, Any]]:
     for r in o.get("pre", []):
         if r["op"] == "merge-existing" and (r["raised"] is None or not (r["meta_same"] and r["disk_same"] and r["nfiles_same"])):
             F.append({"cls": "existing-target-not-refused", "what": f"merge onto an existing target: {r}"})
-    # merged view = source view
-    if "merged_open_err" in o:
-        F.append({"cls": "merged-unopenable", "what": f"merged record cannot be opened: {o['merged_open_err']}"})
-    elif o["merged_view"] != o["src_view"]:
-        F.append({"cls": "merged-view", "what": "dump of the merged record differs from the dump of the source",
-                  "only_in_merged": [e for e in o["merged_view"] if e not in o["src_view"]][:3],
-                  "only_in_source": [e for e in o["src_view"] if e not in o["merged_view"]][:3]})
-    elif o.get("merged_nfiles") != 1:
-        F.append({"cls": "merged-not-single", "what": f"merged record has {o.get('merged_nfiles')} containers"})
+    # merged view = source view, with every class that must be able to open the merged record
+    for cn, v in o["merged_views"].items():
+        if v and v[0] == "OPEN-ERROR":
+            F.append({"cls": "merged-unopenable", "what": f"merged record cannot be opened with {cn}: {v[1]}"})
+        elif v and v[0] == "NFILES":
+            F.append({"cls": "merged-not-single", "what": f"merged record has {v[1]} containers"})
+        elif v != o["src_view"]:
+            F.append({"cls": "merged-view", "what": f"dump of the merged record ({cn}) differs from the dump of the source",
+                      "only_in_merged": [e for e in v if e not in o["src_view"]][:3],
+                      "only_in_source": [e for e in o["src_view"] if e not in v][:3]})
     # source unchanged
     if not o["sha_same"]:
         F.append({"cls": "source-files-changed", "what": "SHA-256 of the source files changed by merge_files"})
@@ -317,22 +344,26 @@ def oracle(o: Dict[str, Any], case) -> List[Dict[str, Any]]:
             F.append({"cls": "merged-ublock-prev", "what": "prev_patch of the merged block is not that of the oldest source container"})
         if ma["hash"] is None or ma["hash"] != ma["dig"]:
             F.append({"cls": "merged-ublock-hash", "what": "hash of the merged block is not the digest of the merged payload"})
-        if case["cls"] == "IH5MFRecord" and ma["ext"] is not None and (ma["mf"] is None or ma["mf"] != sa[-1]["mf"]):
+        if case_classes(case)[2] == "IH5MFRecord" and ma["ext"] is not None and (ma["mf"] is None or ma["mf"] != sa[-1]["mf"]):
             F.append({"cls": "merged-manifest", "what": "manifest beside the merged container is not the source's newest manifest"})
     # chain continuation
-    views = {k: o.get(k) for k in ("follow_live_view", "follow_src_view", "follow_merged_view")}
-    if "follow_merged_err" in o:
-        F.append({"cls": "patch-not-applicable", "what": f"[merged, patch] cannot be opened: {o['follow_merged_err']}"})
-    elif not (views["follow_live_view"] == views["follow_src_view"] == views["follow_merged_view"]):
-        F.append({"cls": "patch-result-differs", "what": "follow-up patch gives different dumps on source and merged container",
-                  "only_in_merged": [e for e in views["follow_merged_view"] if e not in views["follow_src_view"]][:3],
-                  "only_in_source": [e for e in views["follow_src_view"] if e not in views["follow_merged_view"]][:3]})
-    if o["mflags"] != o["fflags"] or o["follow_own_view"] != o["follow_src_view"]:
+    live = o["follow_live_view"]
+    for cn in BOTH:
+        sv, mv, ov = o["follow_src_views"][cn], o["follow_merged_views"][cn], o["own_on_src_views"][cn]
+        if sv != live:
+            F.append({"cls": "source-reopen-differs", "what": f"source + follow-up patch reopened with {cn} differs from the live handle: {sv[:2]}"})
+        if mv and mv[0] == "OPEN-ERROR":
+            F.append({"cls": "patch-not-applicable", "what": f"[merged, patch] cannot be opened with {cn}: {mv[1]}"})
+        elif mv != live:
+            F.append({"cls": "patch-result-differs", "what": f"follow-up patch gives different dumps on source and merged container ({cn})",
+                      "only_in_merged": [e for e in mv if e not in live][:3],
+                      "only_in_source": [e for e in live if e not in mv][:3]})
+        if ov and ov[0] == "OPEN-ERROR":
+            F.append({"cls": "merged-patch-not-applicable", "what": f"source + [patch written on the merged record] cannot be opened with {cn}: {ov[1]}"})
+        elif ov != live:
+            F.append({"cls": "merged-patch-result-differs", "what": f"a patch written on the merged record gives a different dump on the original containers ({cn})"})
+    if o["mflags"] != o["fflags"] or o["follow_own_view"] != live:
         F.append({"cls": "patching-merged-differs", "what": "the follow-up operations behave differently on the merged record"})
-    if "own_on_src_err" in o:
-        F.append({"cls": "merged-patch-not-applicable", "what": f"source + [patch written on the merged record] cannot be opened: {o['own_on_src_err']}"})
-    elif o["own_on_src_view"] != o["follow_src_view"]:
-        F.append({"cls": "merged-patch-result-differs", "what": "a patch written on the merged record gives a different dump on the original containers"})
     # stubs
     for k in ("ref_stub", "ref_stub2"):
         if k in o and (o[k]["raised"] != "ValueError" or not o[k]["disk_unchanged"]):
@@ -398,15 +429,16 @@ def _strs(x):
 
 def model_case(case, o) -> Any:
     """Wire case of run_c05 from the history and the *observed* source files."""
-    mfm = case["cls"] == "IH5MFRecord"
+    mfm = case_classes(case)[2] == "IH5MFRecord"
     (_, _, rows), names = reclib.to_model_case(mfm, False, o["src_abs"] + [o["merged_abs"]])
     d = names[o["merged_abs"]["dig"]]
     return [_mops(case["ops"]), case["follow"], [mfm, False, rows[:-1], d, bool(case.get("ro")), _mpre(case.get("pre", []))]], rows[-1], rows[:-1], names
 
 
 def _mops(ops):
-    """History for the model: a boundary with a refused commit in between is a boundary."""
-    return [["bnd"] if o[0] == "cc" else o for o in ops]
+    """History for the model: a boundary with a refused commit in between, or with a change of the
+    session / record class, is a boundary."""
+    return [["bnd"] if o[0] in ("cc", "sess") else o for o in ops]
 
 
 def _mpre(pre):
@@ -467,15 +499,19 @@ def compare_model(case, o, m, exp_row, src_rows) -> List[Dict[str, Any]]:
     if ubr[0] != "ok":
         D.append({"kind": "merge-refused-by-model", "what": str(ubr)})
     else:
-        if ubr[1] != _strs(exp_row):
-            D.append({"kind": "merged-ublock", "what": "merged user block / payload digest / manifest differs from the model",
+        exp = _strs(exp_row)
+        # the sidecar manifest is part of the record for the manifest-aware class only, and only when the
+        # block names one (a manifest-aware merge of a block without the extension leaves an unreferenced file)
+        with_mf = case_classes(case)[2] == "IH5MFRecord" and exp[5] != []
+        if ubr[1][:7] != exp[:7] or (with_mf and ubr[1][7] != exp[7]):
+            D.append({"kind": "merged-ublock", "what": "merged user block (incl. ub_exts) / payload digest / manifest differs from the model",
                       "model": ubr[1], "impl": _strs(exp_row)})
         if ubr[2] != [_strs(src_rows), "F"]:
             D.append({"kind": "model-frame", "what": "model changed the source state"})
-    if o["fflags"] != flags_s or _strs(o["follow_src_view"]) != v_sp:
+    if o["fflags"] != flags_s or _strs(o["follow_live_view"]) != v_sp:
         D.append({"kind": "follow-on-source", "what": "follow-up patch on the source differs from the model",
                   "model": [flags_s], "impl": [o["fflags"]]})
-    if "follow_merged_view" in o and _strs(o["follow_merged_view"]) != v_mt:
+    if any(v[:1] != ["OPEN-ERROR"] and _strs(v) != v_mt for v in o["follow_merged_views"].values()):
         D.append({"kind": "follow-on-merged", "what": "[merged, patch] differs from the model (C05_merge_continues)"})
     if o["mflags"] != flags_m or _strs(o["follow_own_view"]) != v_mo:
         D.append({"kind": "follow-own", "what": "patching the merged record differs from the model"})
@@ -581,7 +617,7 @@ def run(ctx: vlib.Ctx):
     for ci, (case, o) in enumerate(zip(cases, obs)):
         if o["st"] != "ok" or any(x["st"] != "ok" for x in o["src_abs"]):
             continue
-        mfm = case["cls"] == "IH5MFRecord"
+        mfm = case_classes(case)[2] == "IH5MFRecord"
         (_, _, rows), _ = reclib.to_model_case(mfm, False, o["src_abs"])
         rcases.append([[], [], [mfm, True, rows, 1, False, []]])
         rexp.append(("writable", o["ref_w"]["raised"] == "ValueError"))
@@ -620,7 +656,7 @@ def run(ctx: vlib.Ctx):
 
     for i in (0, len(fixed_cases()) + 1, len(cases) - 1):
         if obs[i]["st"] == "ok":
-            ctx.sample({"case": cases[i], "source_files": len(obs[i]["src_abs"]), "merged_view": obs[i].get("merged_view"),
+            ctx.sample({"case": cases[i], "source_files": len(obs[i]["src_abs"]), "merged_views": obs[i].get("merged_views"),
                         "follow_flags": obs[i]["fflags"]})
 
     # ---- oracle hits: a few per failure class and record class, shrunk in parallel
